@@ -197,6 +197,27 @@ def W3(ctx):
                 (wakes, stores), sfn.loc(), detail="set_unparked")
 
 
+def _is_take(prog, w):
+    """The mutable borrow w flows into mem::take / mem::replace(.., false)."""
+    cons = prog.borrow_consumer(w["fn"], w["bb"], w["idx"])
+    if not cons or cons[2] != 0:
+        return False
+    k = callee_path(cons[1])
+    if k == "std::mem::take":
+        return True
+    if k == "std::mem::replace":
+        e = prog.fns[w["fn"]].body.expr_of_operand(cons[1]["args"][1])
+        return e[0] == "const" and e[1].get("int") == 0
+    return False
+
+
+def _const_int(body, w):
+    if w["stmt"]["k"] != "=":
+        return None
+    e = body.expr_of_rvalue(w["stmt"]["rv"])
+    return e[1].get("int") if e[0] == "const" else None
+
+
 def W4(ctx):
     """Writers of Notify.notified / did_spur, might_spur = spurious && !did_spur, spurious branch only under might_spur."""
     prog = ctx.prog
@@ -221,6 +242,11 @@ def W4(ctx):
                     ctx.bad("W4", fk, "Notify.%s must start false" % field, site_str(prog, w["fn"], w["bb"]), detail=field + "-init")
                 continue
             if w["kind"] != "assign":
+                if field == "notified" and fk == "rt::notify::Notify::wait" and _is_take(prog, w):
+                    # `mem::take(&mut state.notified)` / `mem::replace(.., false)`: the consuming write in another spelling;
+                    # where it may stand is decided by the consume/acquire pairing below
+                    ctx.ok("W4", "%s:%s=take" % (fk, field), "allowed writer (take)", [site_str(prog, w["fn"], w["bb"])])
+                    continue
                 ctx.bad("W4", fk, "Notify.%s is mutably borrowed" % field, site_str(prog, w["fn"], w["bb"]), detail=field + "-borrow")
                 continue
             e = body.expr_of_rvalue(w["stmt"]["rv"])
@@ -277,6 +303,46 @@ def W4(ctx):
                     ctx.bad("W4", "rt::notify::Notify::wait", "spurious branch is offered although the Notify cannot (or no longer may) spur",
                             site_str(prog, wk, b), detail="spur-guard")
     ctx.floor("W4", n, 7, "writers of notified/did_spur + might_spur + spurious guard")
+    # consume / acquire pairing in Notify::wait: (a) every return that is not the spurious one (yield_now) has consumed the
+    # notification flag; (b) wherever the flag may be consumed, the acquire of the notifier's clock is on every path to return
+    wfk = "rt::notify::Notify::wait"
+    wfn = need_fn(ctx, "W4", wfk)
+    if wfn is not None:
+        wi = prog.ident(wfk)
+        wb = wfn.body
+        must_c, may_c, must_a, spur = set(), set(), set(), set()
+        for (b, t, c) in prog.sites(wi):
+            k = prog.callee_key(c)
+            if k == "rt::yield_now":
+                spur.add(b)
+            ck = _closure_arg(arg_expr_call(wb, t)) if k in ("rt::execution", "rt::synchronize") else None
+            if not ck or ck not in prog.fns:
+                continue
+            cb = prog.fns[ck].body
+            cons = [w["bb"] for w in prog.writers().get((NSTATE, "notified"), []) if w["fn"] == ck and
+                    ((w["kind"] == "assign" and w["exact"] and _const_int(cb, w) == 0) or (w["kind"] == "borrow_mut" and _is_take(prog, w)))]
+            acq = [b2 for (b2, t2, c2) in prog.sites(prog.ident(ck)) if prog.callee_key(c2) == "rt::synchronize::Synchronize::sync_load"
+                   and mentions_field(arg_expr(cb, t2, 0), NSTATE, "synchronize") is not None]
+            if cons:
+                may_c.add(b)
+                if every_path_passes(cb, cons):
+                    must_c.add(b)
+            if acq and every_path_passes(cb, acq):
+                must_a.add(b)
+        if not may_c:
+            ctx.bad("W4", wfk, "Notify::wait never consumes the notification flag: one notify satisfies every later wait", wfn.loc(), detail="never-consumed")
+        else:
+            if every_path_passes(wb, must_c | spur):
+                ctx.ok("W4", wfk + ":consumed", "every non-spurious return has consumed the notification", [site_str(prog, wfk, sorted(must_c)[0])] if must_c else [wfn.loc()])
+            else:
+                ctx.bad("W4", wfk, "some non-spurious return of Notify::wait leaves `notified` set: the next wait returns without a new "
+                        "notification (phantom wake-up)", wfn.loc(), detail="not-consumed")
+            lost = [b for b in sorted(may_c) if b not in must_a and not all(every_path_passes(wb, must_a, start=s_) for s_ in wb.succs(b))]
+            if lost:
+                ctx.bad("W4", wfk, "the notification flag may be consumed on a path that returns without the acquire of the notifier "
+                        "(e.g. the spurious return): the wake-up is lost", site_str(prog, wfk, lost[0]), detail="consume-without-acquire")
+            else:
+                ctx.ok("W4", wfk + ":consume->acquire", "the flag is consumed only where the acquire follows on every path", [site_str(prog, wfk, sorted(may_c)[0])])
 
 
 def _notify_new_args(prog, fk):
